@@ -767,6 +767,8 @@ def corpus():
     ]
     out = [{"base": B0, "ops": o} for o in ops]
     out.append({"base": B0, "ops": [["new_dir", "n", 0, None], ["new_file", "f", 6, "F", 21, None]], "fmt": "git"})
+    out.append({"base": B0, "ops": [["new_file", "w", 0, "W", None, None]], "fmt": "git"})   # is_versioned (git finding)
+    out.append({"base": B0, "ops": [["new_file", "k", 0, "K", 14, None], ["new_file", "c", 6, "C", 15, None]]})  # DuplicateKey
     out.append({"base": [[0, "e", "f", "E1", True, 1], [0, "a", "d", "", False, 2]],
                 "ops": [["new_dir", "a", 0, 2]], "fmt": "git"})     # duplicate directories (git finding)
     return out
